@@ -6,7 +6,7 @@ from .common import *
 MODEL_FILES = 'CompareDefs.v (cJSON_Compare, get_object_item, case_insensitive_strcmp), Dbl.v (compare_double)'
 RULE = ('random trees (distinct keys per object; distinct after ASCII folding when comparing case-insensitively) each against itself (same pointer), '
         'an equal copy, every kind of single-point mutation (type, one ulp / 2 ulp / sign / inf / nan of a number, one byte of a string or key, '
-        'element added/removed, member renamed by case, member added) and member permutations; both argument orders, both case modes, '
+        'element added/removed, member renamed by case, member added) and member permutations; one member removed at EVERY position of every object of the tree (strict sub-objects, both orders, shuffled); a sample of all cases with both operands in READ-ONLY memory during the calls (arena allocator + mprotect: any store faults); both argument orders, both case modes, '
         'ownership flags set at random, NULL and invalid-type arguments; verdict = python implementation of the declarative equality; '
         'non-trivial = distinct pair that is not (NULL, x)')
 ASSUMPTIONS = ['C locale (tolower)', 'hand-written transliteration validated by this differential run', 'python float arithmetic is IEEE binary64 (used by the verdict)']
